@@ -168,8 +168,10 @@ def handles_fail_fast(ctx, prog, viol):
     ex = io_executor(ctx, prog)
     f_call, f_nowait = prog.method('IoLoopHandle', 'call'), prog.method('IoLoopHandle', 'call_nowait')
     grp = 'a handle whose I/O thread is gone fails fast: the queued error first, EventLoopDropped afterwards, no blocking receive'
+    import c09
+    hviol = []
     for queued in ('error', 'nothing'):
-        for fn_, bind in ((f_call, {'M': 'amq_protocol::protocol::queue::AMQPMethod', 'T': 'amq_protocol::protocol::queue::PurgeOk'}), (f_nowait, {'M': 'amq_protocol::protocol::queue::AMQPMethod'})):
+        for (opname, fn_, mkargs, bind) in c09.handle_ops(prog):
             st = State()
             tx = Chan('h.tx', None, False)
             rx = Chan('h.reply', 2, True)
@@ -178,16 +180,20 @@ def handles_fail_fast(ctx, prog, viol):
                 rx.queue.append(mk_err(Lazy('errors::Error', 'queued.err')))
             handle = mk_struct(prog, 'IoLoopHandle', channel_id=Int(sym('h.chan', BV16), 16), buf=Agg({0: ByteVec('h.buf')}, 'OutputBuffer'), tx=SenderVal(tx), rx=ReceiverVal(rx))
             st.roots['h'] = Cell(handle, 'handle')
-            for (s, rv) in ex.run(st, fn_, [Ref(st.roots['h']), Lazy('amq_protocol::protocol::queue::AMQPMethod', 'req')], bind=bind):
+            st.pc.append(z3.ULE(sym('h.body.len', BV64), 1 << 32))
+            for (s, rv) in ex.run(st, fn_, [Ref(st.roots['h'])] + mkargs(1), bind=bind):
                 if isinstance(rv, Panic):
                     c = z3.BoolVal(False)
                 elif queued == 'error':
                     c = same_value(err_value(rv), Lazy('errors::Error', 'queued.err')) if rv.disc == 1 else z3.BoolVal(False)
                 else:
                     c = z3.BoolVal(err_name(prog, rv) == 'EventLoopDropped')
-                m = ctx.decide(f"c05.handle[{fn_.name.split('::')[-1]},{queued}]", s.pc, c, group=grp)
+                m = ctx.decide(f"c05.handle[{opname},{queued}]", s.pc, c, group=grp)
                 if m is not None:
-                    viol.append(('handle', fn_.name.split('::')[-1], queued, str(rv)[:80]))
+                    hviol.append(('handle', opname, queued, str(rv)[:80]))
+    if hviol:
+        ctx.report('handle-after-death', f"channel handle whose I/O side is gone: {str(hviol[0])[:300]}", {'solver_counterexamples': [str(v) for v in hviol[:6]]},
+                   c09.HANDLE_TEST, inject_into='src/io_loop/io_loop_handle.rs', profiles=('dev',), hang_is_violation=True, panic_is_violation=True)
     # a call already in flight when the loop dies: the blocked receive wakes with EventLoopDropped
     st = State()
     tx = Chan('h.tx', None, True)
